@@ -34,6 +34,7 @@ type violation struct {
 type runRecord struct {
 	Begin      *uint64        `json:"begin,omitempty"`
 	Done       bool           `json:"done,omitempty"`
+	Resume     uint64         `json:"resume,omitempty"`
 	Seed       uint64         `json:"seed"`
 	Class      string         `json:"class,omitempty"`
 	End        string         `json:"end"`
@@ -53,14 +54,15 @@ type runRecord struct {
 }
 
 type knownFinding struct {
-	Property string     `json:"property"`
-	Id       string     `json:"id"`
-	Status   string     `json:"status"` // open | fixed
-	Fp       []string   `json:"fp"`     // glob patterns over violation fingerprints
-	What     string     `json:"what"`
-	Sentinel [][]string `json:"sentinel,omitempty"` // script that reaches the finding directly
-	Avoid    string     `json:"avoid,omitempty"`
-	Commit   string     `json:"commit,omitempty"`
+	Property     string     `json:"property"`
+	Id           string     `json:"id"`
+	Status       string     `json:"status"` // open | fixed
+	Fp           []string   `json:"fp"`     // glob patterns over violation fingerprints
+	What         string     `json:"what"`
+	Sentinel     [][]string `json:"sentinel,omitempty"`      // script that reaches the finding directly
+	SentinelPlan string     `json:"sentinel_plan,omitempty"` // or a named plan built into the worker
+	Avoid        string     `json:"avoid,omitempty"`
+	Commit       string     `json:"commit,omitempty"`
 }
 
 type propInfo struct {
@@ -307,23 +309,42 @@ func main() {
 		go func() {
 			defer wg.Done()
 			for j := range jobs {
-				left := time.Until(deadline)
-				if left <= 0 {
-					return
+				end := j.from + uint64(j.n)
+				for part := 0; j.from < end; part++ {
+					left := time.Until(deadline)
+					if left <= 0 {
+						return
+					}
+					outFile := filepath.Join(scratch, fmt.Sprintf("out-%d-%d.jsonl", j.idx, part))
+					so, err := runWorker(bin, map[string]string{
+						"VS_MODE": "run", "VS_PROP": prop, "VS_FROM": strconv.FormatUint(j.from, 10), "VS_N": strconv.Itoa(int(end - j.from)),
+						"VS_TIER": tier, "VS_OUT": outFile, "VS_REPLAY_DIR": scratch, "VS_SECONDS": strconv.Itoa(int(left.Seconds()) + 1),
+						"GORACE": "halt_on_error=0 log_path=" + filepath.Join(scratch, fmt.Sprintf("race-%d", j.idx)),
+					}, left+5*time.Minute)
+					rs, lastBegin, finished, resume := readRecords(outFile)
+					mu.Lock()
+					recs = append(recs, rs...)
+					if !finished && resume > j.from {
+						// the worker abandoned a wedged run after recording it; carry on with the rest of the slice
+						j.from = resume
+						mu.Unlock()
+						continue
+					}
+					if !finished {
+						hangInfo := ""
+						if b, e := os.ReadFile(outFile); e == nil {
+							if i := strings.LastIndex(string(b), `{"hang":`); i >= 0 {
+								hf := filepath.Join(verifDir, "out", fmt.Sprintf("hang-%s-%d.json", prop, lastBegin))
+								os.MkdirAll(filepath.Dir(hf), 0o755)
+								os.WriteFile(hf, b[i:], 0o644)
+								hangInfo = " (wall-clock watchdog fired; goroutine stacks in " + hf + ")"
+							}
+						}
+						deaths = append(deaths, fmt.Sprintf("seed %d: worker ended without finishing its slice (%v)%s\n%s", lastBegin, err, hangInfo, tail(so, 15)))
+					}
+					mu.Unlock()
+					break
 				}
-				outFile := filepath.Join(scratch, fmt.Sprintf("out-%d.jsonl", j.idx))
-				so, err := runWorker(bin, map[string]string{
-					"VS_MODE": "run", "VS_PROP": prop, "VS_FROM": strconv.FormatUint(j.from, 10), "VS_N": strconv.Itoa(j.n),
-					"VS_TIER": tier, "VS_OUT": outFile, "VS_REPLAY_DIR": scratch, "VS_SECONDS": strconv.Itoa(int(left.Seconds()) + 1),
-					"GORACE": "halt_on_error=0 log_path=" + filepath.Join(scratch, fmt.Sprintf("race-%d", j.idx)),
-				}, left+5*time.Minute)
-				rs, lastBegin, finished := readRecords(outFile)
-				mu.Lock()
-				recs = append(recs, rs...)
-				if !finished {
-					deaths = append(deaths, fmt.Sprintf("seed %d: worker ended without finishing its slice (%v)\n%s", lastBegin, err, tail(so, 40)))
-				}
-				mu.Unlock()
 			}
 		}()
 	}
@@ -365,11 +386,11 @@ func main() {
 	}
 	// sentinels: show that each open finding is still there
 	for _, k := range known {
-		if k.Status != "open" || len(k.Sentinel) == 0 {
+		if k.Status != "open" || (len(k.Sentinel) == 0 && k.SentinelPlan == "") {
 			continue
 		}
 		sb, _ := json.Marshal(k.Sentinel)
-		so, _ := runWorker(bin, map[string]string{"VS_MODE": "sentinel", "VS_PROP": prop, "VS_SCRIPT": string(sb)}, 2*time.Minute)
+		so, _ := runWorker(bin, map[string]string{"VS_MODE": "sentinel", "VS_PROP": prop, "VS_SCRIPT": string(sb), "VS_SENTINEL_PLAN": k.SentinelPlan}, 2*time.Minute)
 		for _, ln := range strings.Split(so, "\n") {
 			var m struct {
 				Sentinel bool       `json:"sentinel"`
@@ -413,7 +434,7 @@ func main() {
 			continue
 		}
 		final := filepath.Join(verifDir, "replays", fmt.Sprintf("%s-%d.json", prop, r.Seed))
-		so, err := runWorker(bin, map[string]string{"VS_MODE": "shrink", "VS_REPLAY": r.Replay, "VS_SHRUNK": final, "VS_BUDGET": "500"}, 10*time.Minute)
+		so, err := runWorker(bin, map[string]string{"VS_MODE": "shrink", "VS_REPLAY": r.Replay, "VS_SHRUNK": final, "VS_BUDGET": "800", "VS_SCRATCH": scratch}, 10*time.Minute)
 		if err != nil || !strings.Contains(so, `"shrunk":true`) {
 			// fall back to the unshrunk file
 			b, _ := os.ReadFile(r.Replay)
@@ -482,7 +503,7 @@ func lastJSON(s string) string {
 	return ""
 }
 
-func readRecords(path string) (recs []runRecord, lastBegin uint64, finished bool) {
+func readRecords(path string) (recs []runRecord, lastBegin uint64, finished bool, resume uint64) {
 	f, err := os.Open(path)
 	if err != nil {
 		return
@@ -501,6 +522,10 @@ func readRecords(path string) (recs []runRecord, lastBegin uint64, finished bool
 		}
 		if r.Done {
 			finished = true
+			continue
+		}
+		if r.Resume > 0 {
+			resume = r.Resume
 			continue
 		}
 		recs = append(recs, r)
